@@ -5,6 +5,7 @@
 # (VERIF_SCRATCH), /verif/evidence is not touched.
 P=$(realpath "$1"); TIER=$2; shift 2
 cd /verif
+tools/trimcache.sh
 WT=/tmp/eval_$$
 git -C /repo worktree add -q --detach $WT HEAD || exit 2
 trap 'git -C /repo worktree remove --force $WT; rm -rf /verif/build/alt_$(echo -n $WT | sha1sum | cut -c1-8); rm -rf /tmp/evs_$$' EXIT
